@@ -177,6 +177,7 @@ def parseProg (b : Bytes) : Except String (List DS) :=
 def minH : Handler := fun args => do
   let b ← argBytes args 0
   let prog ← parseProg b
+  if !Verif.Model.JsHoist.hoistConsistentAll prog then .error "hoistBody and the store disagree" else
   match Verif.Model.JsHoist.jsMinify prog with
   | some cs => .ok (charsToBytes cs)
   | none => .error "unmodelled"
@@ -205,7 +206,7 @@ def showBinding (h : List Scope) (ids : List Nat) (x : String) : String :=
   | some id =>
     match getB h id x with
     | some ⟨some v, _⟩ => x ++ "=" ++ v.shw
-    | _ => x ++ "=<tdz>"
+    | _ => x ++ "=<none>"   -- an uninitialised binding cannot be told from an absent one by a later script (V8)
 
 def showOut (names : List String) (lexId : Nat) (o : Out Compl) : String :=
   match o with
@@ -231,9 +232,16 @@ def runH : Handler := fun args => do
   let s0 : St := ⟨[initGlobal], []⟩
   match runProg (scriptHost sc) depth prog s0 with
   | .syntaxError => .ok (strBytes "syntax")
+  | .unsupported => .ok (strBytes "stuck:unsupported")
   | .done o => .ok (strBytes (showOut ns 1 o))
 
+/-- `trig.c01d.known <prog>` → id of the open known finding whose guard the program satisfies, `-` if none -/
+def trigH : Handler := fun args => do
+  let b ← argBytes args 0
+  let prog ← parseProg b
+  .ok (strBytes (Verif.Model.JsHoist.knownTrigger prog))
+
 def handlers : List (String × Handler) :=
-  [("model.c01d.min", minH), ("spec.c01d.run", runH)]
+  [("model.c01d.min", minH), ("spec.c01d.run", runH), ("trig.c01d.known", trigH)]
 
 end Verif.Driver.C01D
